@@ -158,8 +158,10 @@ func (e *Env) formatter() *fmtInfo {
 		if fi.modsFn != nil && inCtxOfFn(n, fi.modsFn) {
 			continue // the s/a/b/ modifier's own Replace
 		}
-		from := sy.InCtx(n.Ctx, n.Call.Args[1]).String()
-		if strings.Contains(from, "FindAllStringSubmatch") || strings.Contains(from, ".match") {
+		// the replaced text is data (a regex match kept in a variable, a struct field or a slice element), never
+		// a constant: the constant-pattern Replace calls of the path encoders are excluded above
+		from := e.fsym().InCtx(n.Ctx, n.Call.Args[1])
+		if from.Op != "lit" {
 			fi.subst = append(fi.subst, n)
 		}
 	}
